@@ -147,6 +147,17 @@ def GoVal.kind : GoVal → Kind
 
 def bitsSuffix (bits : Nat) : Bytes := if bits == 0 then [] else natToBytes bits
 
+/-- The wire names a struct type by `Type().String()`, followed by `#n` when several DISTINCT types of the
+process print alike (function-local types of one name, same-named types of different packages): the
+name with the marker is the type's identity (rule sets and the type cache are keyed by it), the name
+without it is what `Type().String()` prints. -/
+def stripTypeId (t : Bytes) : Bytes :=
+  let r := t.reverse
+  let digits := r.takeWhile (fun c => 48 ≤ c && c ≤ 57)
+  match r.dropWhile (fun c => 48 ≤ c && c ≤ 57) with
+  | 35 :: rest => if digits.isEmpty then t else rest.reverse
+  | _ => t
+
 /-- `Type().String()` -/
 def GoVal.typeString : GoVal → Bytes
   | .str _ => b! "string"
@@ -159,7 +170,7 @@ def GoVal.typeString : GoVal → Bytes
   | .slice t _ _ _ => t
   | .array t _ _ => t
   | .map t _ _ _ => t
-  | .struct t _ _ _ => t
+  | .struct t _ _ _ => stripTypeId t
   | .other _ t _ _ => t
 
 /-- `Type().Name()`: empty for unnamed composite types -/
